@@ -4,6 +4,7 @@ import (
 	"fmt"
 	"go/token"
 	"go/types"
+	"regexp"
 	"strings"
 
 	"golang.org/x/tools/go/ssa"
@@ -386,33 +387,62 @@ func (c *Ctx) wrapCutRule(r *Report, rule string, wt *ssa.Function, lVal ssa.Val
 	if nEl == 0 {
 		r.Fail(rule, wn, "paragraph elements", c.pos(wt.Pos()), "no element of strings.Split(s, \"\\n\") found")
 	}
-	// a piece appended to a non-empty line is always preceded by newline + prefix: the join is skipped only when the line is empty
+	// a piece appended to a non-empty line is always preceded by newline + prefix: the join (string `+=` or
+	// Builder.WriteString of "\n"+prefix, here or in a new helper) depends on exactly one condition more than the
+	// append that follows it — the accumulated line being non-empty
 	nJ := 0
+	pdoms := map[*ssa.Function]map[*ssa.BasicBlock]*ssa.BasicBlock{}
 	for _, b := range c.blocks(wt) {
 		for _, in := range b.Instrs {
-			bo, ok := in.(*ssa.BinOp)
-			if !ok || bo.Op != token.ADD || c.term(bo.Y) != `("\n" + P2)` || bo.Referrers() == nil {
+			var acc ssa.Value
+			builder := false
+			switch v := in.(type) {
+			case *ssa.BinOp:
+				if v.Op == token.ADD && joinTermRe.MatchString(c.term(v.Y)) {
+					acc = v.X
+				}
+			case *ssa.Call:
+				if c.calleeName(&v.Call) == "(*strings.Builder).WriteString" && joinTermRe.MatchString(c.term(v.Call.Args[1])) {
+					acc, builder = v.Call.Args[0], true
+				}
+			}
+			if acc == nil {
 				continue
 			}
-			for _, ref := range *bo.Referrers() {
-				ph, ok := ref.(*ssa.Phi)
-				if !ok {
-					continue
-				}
-				nJ++
-				want := "nonempty(" + c.term(bo.X) + ")"
-				for i, e := range ph.Edges {
-					if e == ssa.Value(bo) {
-						continue
-					}
-					l, has := c.edgeLitTo(ph.Block().Preds[i], ph.Block())
-					okE := c.resolve(e) == c.resolve(bo.X) && has && !l.Pos && l.Term == want
-					r.Check(okE, rule, wn, "continuation pieces are indented: newline + prefix is skipped only for an empty line", c.ipos(ph), "the un-joined edge is taken exactly under len(line) == 0", "a piece can follow a non-empty line without newline + prefix (edge condition "+trunc(l.String(), 100)+"): the continuation starts at column 0")
+			nJ++
+			fn := in.Parent()
+			if pdoms[fn] == nil {
+				pdoms[fn] = postDom(fn)
+			}
+			base := map[CtlDep]bool{}
+			if m := pdoms[fn][in.Block()]; m != nil {
+				for _, d := range c.controlDeps(fn, m) {
+					base[d] = true
 				}
 			}
+			var own []string
+			okLit := false
+			for _, d := range c.controlDeps(fn, in.Block()) {
+				if base[d] {
+					continue
+				}
+				l, _ := c.edgeLit(d.B, d.Succ)
+				own = append(own, l.String())
+				at := c.term(acc)
+				if !builder && l.Pos && l.Term == "nonempty("+at+")" {
+					okLit = true
+				}
+				lenT := "call:(*strings.Builder).Len(" + at + ")"
+				if builder && (l.Pos && (l.Term == "nonzero("+lenT+")" || l.Term == "lt(0, "+lenT+")") || !l.Pos && l.Term == "eq(0, "+lenT+")") {
+					okLit = true
+				}
+			}
+			r.Check(okLit && len(own) == 1, rule, wn, "continuation pieces are indented: newline + prefix is added exactly when the line so far is non-empty", c.ipos(in), "CD(join) \\ CD(following append) = {line non-empty}", "the join depends on "+strings.Join(own, " ∧ ")+": a piece can follow a non-empty line without newline + prefix (the continuation starts at column 0) or the test is not about the accumulated line")
 		}
 	}
-	if nJ < 2 {
-		r.Fail(rule, wn, "join sites", c.pos(wt.Pos()), fmt.Sprintf("%d joins `line += \"\\n\" + prefix` found, expected 2", nJ))
+	if nJ < 1 {
+		r.Fail(rule, wn, "join sites", c.pos(wt.Pos()), "no join `line += \"\\n\" + prefix` found")
 	}
 }
+
+var joinTermRe = regexp.MustCompile(`^\("\\n" \+ P\d+\)$`)
